@@ -12,6 +12,7 @@ R7.lexer       skip terminals have empty actions and all five regex terminals eq
 R7.shape       grammar side conditions used by C02 (non-empty blocks, root is Top, where functions may occur).
 R7.unambiguous the crate builds ⇒ LALRPOP reported no conflicts.
 """
+import re
 from .. import anchors as A
 from .. import grammar as G
 from ..regexeq import equivalent
@@ -176,6 +177,35 @@ def run(ck, fx, cg, tier):
             ck.ob("R7.spelling", "Operator nonterminal", not diff, where,
                   "method-call and definition forms name the 13 operators as the infix forms do" if not diff else
                   "`a.op(b)` / `function op (x)` name operators differently from infix `a op b` (terminal: (named, infix)): %s" % diff)
+    # ---------------------------------------------------------------- literals denote themselves
+    def alts_of(rule_name):
+        r = g.rules.get(rule_name)
+        out = {}
+        for a in (r.alts if r else []):
+            if len(a.symbols) == 1 and a.symbols[0].kind == "nt":
+                t = g.terminal_pattern(a.symbols[0].ref)
+                if t and not t["regex"]:
+                    out[t["pattern"]] = "".join(a.action.split())
+        return out, r
+    bl, r_b = alts_of("Boolean")
+    if ck.anchor("R7.literals", "rule Boolean", r_b):
+        ck.ob("R7.literals", "true / false", bl == {"true": "AST::boolean(true)", "false": "AST::boolean(false)"}, "src/fml.lalrpop:%d" % r_b.line,
+              "keyword ↦ action: %s; expected true ↦ AST::boolean(true), false ↦ AST::boolean(false)" % bl)
+    ul, r_u = alts_of("Unit")
+    if ck.anchor("R7.literals", "rule Unit", r_u):
+        ck.ob("R7.literals", "null", ul == {"null": "AST::null()"}, "src/fml.lalrpop:%d" % r_u.line, "keyword ↦ action: %s; expected null ↦ AST::null()" % ul)
+    r_n = g.rules.get("Number")
+    if ck.anchor("R7.literals", "rule Number", r_n):
+        acts = ["".join(a.action.split()) for a in r_n.alts]
+        okn = len(acts) == 1 and bool(re.fullmatch(r"AST::integer\((i32::from_str\(<>\)|<>\.parse(::<i32>)?\(\))\.(unwrap\(\)|expect\(\"[^\"]*\"\))\)", acts[0]))
+        ck.ob("R7.literals", "numbers", okn, "src/fml.lalrpop:%d" % r_n.line, "action %s; expected the digits parsed as an i32 and nothing else" % acts)
+    # ---------------------------------------------------------------- the constructors the actions call are plain
+    from . import shared as _sh
+    n_ctor = 0
+    for cname, okc, whyc in _sh.ast_constructors(fx):
+        n_ctor += 1
+        ck.ob("R7.ctors", "AST::" + cname, okc, "src/parser/mod.rs", whyc)
+    ck.floor("R7.ctors", "AST constructor helpers examined", n_ctor, 10)
     # ---------------------------------------------------------------- left fold (HIR)
     _left_fold(ck, fx)
     # ---------------------------------------------------------------- sugar
